@@ -198,7 +198,9 @@ class Apps:
         elif pos == 'xfproto':
             headers['X-Forwarded-Proto'] = payload
         if as_json:
-            headers['Accept'] = 'application/json'
+            # the ways clients ask for JSON first (a pure function of the case: replays send the same header)
+            import zlib
+            headers['Accept'] = JSON_ACCEPTS[zlib.crc32(repr((kind, pos, payload)).encode('utf8', 'replace')) % len(JSON_ACCEPTS)]
         method = 'POST' if kind == '400' else 'GET'
         kw = {}
         if kind == '400':
@@ -207,6 +209,10 @@ class Apps:
         if pos in ('requri', 'rawuri'):
             env['REQUEST_URI' if pos == 'requri' else 'RAW_URI'] = base + payload + '?q=' + payload
         return wsgi.call({'critical': self.app2, 'criticaldm': self.app3, '500datasetup': self.app4, '404static': self.app5}.get(kind, self.app), env)
+
+
+JSON_ACCEPTS = ['application/json', 'application/json, text/plain, */*', 'application/json;q=0.9, */*;q=0.8', 'application/json; charset=utf-8',
+                'application/json, text/javascript, */*; q=0.01', 'application/json; q=0.5', 'application/json;q=1.0, text/html;q=0.9']
 
 
 def expected_status(kind):
